@@ -35,6 +35,8 @@ def run(ctx):
         a = np.array(bits, dtype=np.uint8)
         return {"str": "".join(map(str, bits)), "str-comma": ",".join(map(str, bits)), "str-space": " ".join(map(str, bits)), "str-comma-space": ", ".join(map(str, bits)),
                 "list": list(bits), "tuple": tuple(bits), "ndarray": protect(a),
+                # the same 0/1 values held as floats, booleans or wide integers (np.round(rand), comparisons, counters)
+                "list-float": [float(b) for b in bits], "ndarray-float": protect(a.astype(float)), "ndarray-bool": protect(a.astype(bool)), "ndarray-int64": protect(a.astype(np.int64)),
                 "binary_sequence": protect(binary_sequence(a.copy()))}
 
     def data(x):
@@ -48,7 +50,7 @@ def run(ctx):
         return "short" if n < k else ("whole" if n % k == 0 else "ragged")
 
     # ---- encoder / decoder / round trip: every bit string of length 1..12 (quick: M in 2,4,8,16)
-    fnames = ["str", "list", "tuple", "ndarray", "binary_sequence", "str-comma", "str-space", "str-comma-space"]
+    fnames = ["str", "list", "tuple", "ndarray", "binary_sequence", "str-comma", "str-space", "str-comma-space", "list-float", "ndarray-float", "ndarray-bool", "ndarray-int64"]
     cnt = 0
     for L in range(1, 13):
         for bits in itertools.product([0, 1], repeat=L):
